@@ -30,7 +30,8 @@ CLAIMED = {
    text='Unbounded proof (Verus/Z3, modulus P symbolic) over the real bodies of PrimeResidueClass: representation invariant 0 <= value < P, '
         'from(i64/i32) == n mod P, + - * neg are the operations of Z/P without overflow, inverse (extended Euclid, the one loop) returns the '
         'multiplicative inverse for every prime P <= 3037000499, / is the field quotient; plus bit-precise complete Kani proofs for P in '
-        '{2, 3, 61, 3037000493} that supply concrete counterexamples.  Row-echelon shape safety is added by unit row_echelon.',
+        '{2, 3, 61, 3037000493} that supply concrete counterexamples.  Unit row_echelon adds, for both echelon constructors (RowEchelonVecMatrix::new and its const-generic twin '
+        'RowEchelonMatrix::new), for every shape: no index or assertion can fail, rank <= min(rows, columns), pivot columns strictly increasing.',
    note='Trusted: Verus+Z3, vstd arithmetic lemmas, Kani/CBMC; domain assumption on the const generic P (2 <= P <= 3037000499, P prime = what valid() '
         'accepts); num_traits Zero/One impls, valid() (f64) and the p-adic solver are not under contract; exact rank/determinant/null space/solve are not decided.',
    ref='5 C18', technique=TECH + '; Kani (CBMC) loop-free harnesses for instantiated moduli'),
